@@ -249,7 +249,7 @@ Lemma gen_out : forall w tr, Gen sc w tr -> Out w.
 Proof.
   intros w tr HG. induction HG as [|w tr e w' HG IH Hs].
   - intros i _. unfold Idle, init_world. cbn. auto.
-  - destruct (globals_released_gen sc w tr HG) as [_ Hb]. destruct Hs as [stage m w Hfresh|w|w t ev f Hf].
+  - destruct (globals_released_gen sc w tr HG) as [_ Hb]. destruct Hs as [stage m w Hfresh Hactive|w|w t ev f Hf].
     + apply (start_rec_mu stage m w IH Hb).
     + exact IH.
     + unfold loop_rec. cbn [fst]. apply (loop_step_mu w t ev f IH Hb Hf).
@@ -274,7 +274,7 @@ Lemma start_one_mu stage m acc : Gen sc (fst acc) (snd acc) -> (stage = 0 -> w_m
   mu (fst (start_one sc stage m acc)) <= mu (fst acc) + (if stage =? 0 then RR else 0).
 Proof.
   intros HG Hf. split; [apply start_one_gen; assumption|]. destruct acc as [w tr]. cbn [fst snd] in *. rewrite start_one_eq.
-  destruct (stage <? c_stages (cfg sc m)); cbn [fst]; [|destruct (stage =? 0); lia].
+  destruct ((stage <? c_stages (cfg sc m)) && active (w_mod w m)); cbn [fst]; [|destruct (stage =? 0); lia].
   destruct (globals_released_gen sc w tr HG) as [_ Hb]. apply (start_rec_mu stage m w (gen_out w tr HG) Hb).
 Qed.
 
